@@ -34,6 +34,33 @@ def _anchors(prog, res):
     return heap, slot, table_field, unions[0]
 
 
+def _temp_intern_map(prog, heap, slot):
+    """Role: the intern map of owned (temporary) strings = the &str-keyed HashMap field of Heap that receives an
+    insert in the body that pushes a slot built from an owned String (the variant with a (String, bool) payload)."""
+    temp = [i for i, v in enumerate(slot.variants) if len(v.fields) == 2 and v.fields[1].ty.s == 'bool']
+    if len(temp) != 1:
+        return None
+    for b in prog.bodies.values():
+        if b.crate != 'samlang_heap':
+            continue
+        builds = any(st[0] == 'a' and st[2][0] == 'agg' and st[2][1][0] == 'adt' and st[2][1][1] == slot.id
+                     and st[2][1][2] == temp[0] for bl in b.blocks if not bl.cleanup for st in bl.stmts)
+        if not builds:
+            continue
+        for bi, t in call_sites(b, lambda nm: nm.endswith('HashMap::<K, V, S, A>::insert')):
+            r, p = operand_root(b, t[3][0])
+            fs = [e for e in p if e[0] == 'f']
+            if r == 1 and fs and fs[-1][1] == heap.id:
+                return fs[-1][4]
+    return None
+
+
+def _unmarked_set_field(heap):
+    """Role: the gate of the sweeper = the only HashSet field of Heap."""
+    c = [f.name for f in heap.variants[0].fields if f.ty.k == 'adt' and f.ty.name.startswith('std::collections::HashSet')]
+    return c[0] if len(c) == 1 else None
+
+
 def run_tag(prog, tier, repo):
     res = RuleResult('PSTR-TAG', 'C17: two handles are equal exactly when their strings are equal - the inline/heap '
                      'discriminator of the 16-byte handle is consistent between the encoder and every decoder')
@@ -229,18 +256,27 @@ def run_dealloc(prog, tier, repo):
         return [res]
     perm, temp, dead = perm[0], temp[0], dead[0]
     heapbodies = [b for b in prog.bodies.values() if b.crate == 'samlang_heap']
-    sweepers = []
-    for b in heapbodies:
+    # role: the sweeper is the unique method of Heap that produces reclaimed slot values
+    def reclaims(b):
         for bl in b.blocks:
+            if bl.cleanup:
+                continue
             for st in bl.stmts:
-                if st[0] == 'a' and st[1].proj and st[1].proj[-1][0] == 'f' and st[1].proj[-1][1] == heap.id \
-                        and st[1].proj[-1][4] == 'sweep_index' and b.name.split('::')[-1] != 'new':
-                    if b not in sweepers:
-                        sweepers.append(b)
-    cursor_field = None
-    # cursor by role: the usize field of Heap assigned outside the constructor
+                if st[0] == 'a' and st[2][0] == 'agg' and st[2][1][0] == 'adt' and st[2][1][1] == slot.id and st[2][1][2] == dead:
+                    return True
+            t = bl.term
+            if t[0] == 'call':
+                tgt = prog.bodies.get(callee(t)[0])
+                if tgt is not None and tgt.crate == 'samlang_heap' and tgt.locals[0].k == 'adt' and tgt.locals[0].id == slot.id \
+                        and tgt.self_ty is not None and strip_refs(tgt.self_ty).k == 'adt' and strip_refs(tgt.self_ty).id == slot.id:
+                    if any(st[0] == 'a' and st[2][0] == 'agg' and st[2][1][0] == 'adt' and st[2][1][1] == slot.id
+                           and st[2][1][2] == dead for bl2 in tgt.blocks for st in bl2.stmts):
+                        return True
+        return False
+    sweepers = [b for b in heapbodies if b.self_ty is not None and strip_refs(b.self_ty).k == 'adt'
+                and strip_refs(b.self_ty).id == heap.id and reclaims(b)]
     if len(sweepers) != 1:
-        res.cannot_decide('the sweeper (unique Heap method that assigns the sweep cursor)')
+        res.cannot_decide(f'the sweeper (unique Heap method that produces reclaimed slots; found {[x.name for x in sweepers]})')
         return [res]
     sweeper = sweepers[0]
     makers = {}
@@ -289,7 +325,7 @@ def run_dealloc(prog, tier, repo):
     for bi, t in call_sites(sweeper, lambda n: n.endswith('::is_empty')):
         r, p = operand_root(sweeper, t[3][0])
         names = field_names(p)
-        if r == 1 and names and 'unmarked' in names[-1]:
+        if r == 1 and names and names[-1] == _unmarked_set_field(heap):
             for bj, bl in enumerate(sweeper.blocks):
                 tt = bl.term
                 if tt[0] == 'switch' and tt[1][0] in ('c', 'm') and root_local(sweeper, tt[1][1].local)[0] == t[4].local:
@@ -419,8 +455,11 @@ def run_unintern(prog, tier, repo):
     if an is None:
         return [res]
     heap, slot, table_field, union = an
-    # intern map by role: HashMap<&'static str, u32> fields of Heap; the one that holds temporaries is the one the
-    # sweeper removes from
+    temp_map = _temp_intern_map(prog, heap, slot)
+    if temp_map is None:
+        res.cannot_decide('the intern map of owned strings (the map that receives an insert where a String-owning slot is pushed)')
+        return [res]
+    res.analysed['owned_string_intern_map'] = temp_map
     n = 0
     for b in [x for x in prog.bodies.values() if x.crate == 'samlang_heap']:
         sites = _slot_assignments(prog, b, slot)
@@ -431,13 +470,13 @@ def run_unintern(prog, tier, repo):
         for bi, t in call_sites(b, lambda nm: nm.endswith('HashMap::<K, V, S, A>::remove')):
             r, p = operand_root(b, t[3][0])
             names = field_names(p)
-            if r == 1 and names and names[-1] == 'interned_string':
+            if r == 1 and names and names[-1] == temp_map:
                 removes.append(bi)
         for bi, st in sites:
             n += 1
             key = f'unintern:{b.name}'
             if removes and cfg.nodes_dominate(removes, bi):
-                res.ok(key, b.loc(st[3]), 'overwrite dominated by interned_string.remove(..)')
+                res.ok(key, b.loc(st[3]), f'overwrite dominated by {temp_map}.remove(..)')
             else:
                 res.violation(key, b.loc(st[3]), f'{b.name} overwrites a string slot without first removing its key from the '
                               f'intern map: the map keeps a dangling &str into the dropped String and a later allocation of '
